@@ -1,4 +1,7 @@
 // Status component: update / removeDev / removeIf / clear, with save / restore for tree-shaped replays.
+// The sys.* operations feed the tracker from the composed system instead: one real encoder per device, a link
+// (queue per device) that can lose frames, one real decoder, every decoded packet into Status::update.
+#include <deque>
 #include <map>
 
 #include "common.h"
@@ -45,10 +48,22 @@ void snapshot(Out& o, const Status& st, const json& probe)
 }
 }
 
+namespace
+{
+struct Sys
+{
+    std::map<int, Encoder> enc;
+    std::map<int, std::deque<std::vector<uint8_t>>> q;
+    Decoder dec;
+};
+}
+
 void runSt(const json& ep)
 {
     Status st;
     std::map<int, Status> slots;
+    Sys sys;
+    std::map<int, Sys> sysSlots;
     const json probe = ep.value("probe", json::object());
     long k = 0;
     for (const auto& op : ep.at("ops"))
@@ -60,11 +75,14 @@ void runSt(const json& ep)
         {
             st = Status();
             slots[0] = st;
+            sys = Sys();
+            sysSlots[0] = sys;
             o.obj().kv("e", "st.new");
         }
         else if (name == "restore")
         {
             st = slots.at(op.at("slot").get<int>());
+            sys = sysSlots[op.at("slot").get<int>()];
             o.obj().kv("e", "st.restore").kv("slot", op.at("slot").get<int>());
         }
         else if (name == "update")
@@ -88,6 +106,54 @@ void runSt(const json& ep)
                 st.getDeviceStatus(idx).removeInterfaceById(static_cast<uint32_t>(beValue(op.at("ifid"))));
             o.obj().kv("e", "st.removeIf").kv("dev", op.at("dev").get<int>()).bytes("ifid", bytesOf(op.at("ifid")));
         }
+        else if (name == "sys.emit")
+        {
+            const int dev = op.at("dev").get<int>();
+            if (!sys.enc.count(dev))
+            {
+                sys.enc[dev].setDeviceId(static_cast<uint16_t>(dev));
+                sys.enc[dev].setStreamId(static_cast<uint8_t>(op.at("stream").get<int>()));
+            }
+            std::vector<Packet> batch;
+            for (const auto& p : op.at("batch"))
+                batch.push_back(makePacket(p));
+            DataContext ctx{op.at("min").get<size_t>(), op.at("max").get<size_t>()};
+            auto frames = sys.enc[dev].encode(batch.begin(), batch.end(), ctx);
+            o.obj().kv("e", "sys.emit").kv("dev", dev).kv("stream", op.at("stream").get<int>());
+            o.kv("min", op.at("min").get<int>()).kv("max", op.at("max").get<int>());
+            o.arr("batch");
+            for (const auto& p : op.at("batch"))
+                logBatchPacket(o, p);
+            o.endArr();
+            logFrames(o, "frames", frames);
+            for (auto& f : frames)
+                sys.q[dev].push_back(std::move(f));
+        }
+        else if (name == "sys.deliver" || name == "sys.lose")
+        {
+            const int dev = op.at("dev").get<int>();
+            o.obj().kv("e", name.c_str()).kv("dev", dev);
+            std::vector<uint8_t> f;
+            const bool have = !sys.q[dev].empty();
+            if (have)
+            {
+                f = std::move(sys.q[dev].front());
+                sys.q[dev].pop_front();
+            }
+            o.kv("have", have).bytes("frame", f);
+            if (name == "sys.deliver")
+            {
+                std::vector<std::shared_ptr<Packet>> out;
+                if (have)
+                    out = sys.dec.decode(f.data(), f.size());
+                o.arr("out");
+                for (const auto& p : out)
+                    snapPacket(o, *p);
+                o.endArr();
+                for (const auto& p : out)
+                    st.update(*p);
+            }
+        }
         else if (name == "clear")
         {
             st.clear();
@@ -102,6 +168,8 @@ void runSt(const json& ep)
         if (op.contains("save"))
         {
             slots[op["save"].get<int>()] = st;
+            if (!sys.enc.empty() || !sysSlots.empty())
+                sysSlots[op["save"].get<int>()] = sys;
             o.kv("save", op["save"].get<int>());
         }
         snapshot(o, st, probe);
